@@ -149,9 +149,9 @@ CLAIMS = {
               "pairwise disjoint and covering; the six calibration getters are consecutive from S in the documented order; kernels are "
               "chained previous stop + 1 by both chain builders; repetitions are exact translates by last.stop - first.start + 1; every "
               "experiment getter slices the matching category; the estimate divides by the same cycle length and asserts exactness."),
-        note=("Assumption: numpy broadcasting of scalar + asarray(range). A vectorised rewrite of create_sliced_arrays is outside the "
-              "normalisable fragment (exit 2, undecided). GeneralCalibrationIndexKernel is outside the anchors. Trusted: range/list semantics."),
-        technique="static analysis: piecewise-affine normal forms over symbolic regions (no solver: coefficient-wise sign decisions)",
+        note=("Assumption: numpy broadcasting of scalar + asarray(range). A vectorised create_sliced_arrays is decided on all shapes up to 4 x 4 only "
+              "(bounded; numpy operations outside the transcribed set -- repeat, tile, reshape, arange, newaxis, broadcasting, stack -- leave it undecided, exit 2). GeneralCalibrationIndexKernel is outside the anchors. Trusted: range/list semantics."),
+        technique="static analysis: piecewise-affine normal forms over symbolic regions (no solver: coefficient-wise sign decisions); abstract interpretation of array index maps with symbolic elements",
     ),
     "C14": dict(
         text=("Decides the noise dresser from its source for all circuits and settings: (N1) in the dresser walk, the measurement dresser, "
@@ -296,3 +296,45 @@ CLAIMS = {
         technique="static analysis: builder summaries (emit counts under loops) compared with piecewise-affine kernel normal forms, region by region",
     ),
 }
+
+
+# -- rules added in phase 4 (second round of independently seeded changes), appended to the claim texts above --------------------------------
+_ADDED = {
+    "C01": " (R11) The duration that enters an operation's equations under the global settings is the setting of its own kind: class -> kind table and "
+           "'the kind is a channel the operation books' agreement between duration_strategy and channel_identifiers (shared C10.T4).",
+    "C02": " (L9) The graph primitives attach what they are given: append_pointers_to performs endpoint.point_towards(p) for every element of the whole list on every "
+           "body path (no test, in particular no value comparison of operations, can skip a node), append_pointer_to hands over exactly [pointer], point_towards records "
+           "successor and predecessor unconditionally. (L10) DeclarativeCircuit.operations is the structure's decomposed_operations() evaluated on every call, and "
+           "decomposed_operations walks the graph on every call (no return path answers from a listing stored on the block).",
+    "C04": " (D4) DeclarativeCircuit.duration is the structure's duration evaluated on every call (one return, no stored value). (D5) end_time == start_time + duration "
+           "in every definition (shared C01.R2).",
+    "C05": " (K8) Nesting a circuit copies it whichever way it is handed over: add() routes every sub-circuit (declarative circuit or bare structure) to the copying "
+           "path before the plain-operation case (shared C02.L7).",
+    "C06": " (U5) What unrolling reads is current: every memoised function reachable from apply_modifiers_to_self / nr_of_repetitions (call graph) is invalidated by "
+           "each writer of what it reads (C03.H1 restricted to that path) -- a memoised registry lookup would unroll a stale count.",
+    "C07": " (A8) The index lookup keeps no state between calls: get_registry_at (with the private helpers it runs) and the index accessors store nothing on the "
+           "registry or the operation.",
+    "C08": " Guards that test the VALUE of an optional integer (`if self.secondary_target:`) are tabulated as sub-cases (zero / non-zero) in which the specified "
+           "instruction must not change; incremental spellings (a look-back list extended by appends, len() tests, xs[0] references) are read through list normal forms.",
+    "C10": " (T4) Every operation class with a global duration lasts for the setting of its own kind (specification table of 15 classes) and that kind is a channel "
+           "the operation occupies (sibling agreement between duration_strategy and channel_identifiers).",
+    "C11": " (F5) apply_flatten_to_self calls no other structural mutator: every method it invokes on self besides the rebuild has a transitive write set (call graph + "
+           "effect analysis) free of graph / repetition-count locations (unrolling pending repetitions while flattening changes the multiset of leaves).",
+    "C12": " The estimate's cycle length is read either as the span of chained kernels or as a closed form sum over rounds of g(n) + c, where g must equal the block "
+           "length heralded + max(1, n) in the regions n = 0, 1, k+2 and c the calibration length; a vectorised create_sliced_arrays is decided by interpreting its numpy "
+           "expressions on symbolic elements for all shapes up to 4 x 4 (index map cell (i, j) == int_list[j] + i * cycle_length); every way out of an experiment getter "
+           "is either the first-match scan hit or the empty answer.",
+    "C13": " (M4) What the experiment kernel reports for a block of n rounds is read from the kernel of that block, selected by its own round count over the whole kernel "
+           "list (shared C12.X4; lookup helpers of the class are read in place); the single ancilla acquisition of a 0-round block carries the 'final' tag.",
+    "C16": "",
+    "C17": " (Y9) The parks of derived descriptions are computed by get_requires_parking at run time, so its skeleton, the frequency order, the moving side and the device "
+           "primitives are part of this check (shared C16.Q1/Q3/Q4/Q9); a single scan that both rejects participants and accepts on the first demanding gate is reported as "
+           "order dependent.",
+    "C19": " Bit-mask spellings are evaluated: module-level tables built by comprehensions with later item assignments, enum auto() values, shifts and bitwise operations on "
+           "constants reduce under the concrete valuations of the truth table.",
+}
+for _k, _v in _ADDED.items():
+    if _v:
+        CLAIMS[_k]["text"] = CLAIMS[_k]["text"] + _v
+NOTES += (" A rule that cannot read the code is isolated: the other rules of the property still run; a definite violation is reported (exit 1) even if another rule is "
+          "undecided, and the check is undecided (exit 2) only when no rule found a violation and at least one could not decide.")
